@@ -149,6 +149,8 @@ func (s *Server) Session(strm signaling.SRPCSignaling_SessionStream) error {
 	// If there was a remote attached previously, clear any pending state.
 	if _, prevRemotePeer := sess.getCurrPeers(localIsPeerA); prevRemotePeer != nil {
 		prevRemotePeer.recv, prevRemotePeer.recvSent = nil, nil
+		// acks and clears from the previous partner belong to the old epoch.
+		prevRemotePeer.recvClear, prevRemotePeer.outAcked = nil, nil
 	}
 
 	sess.seqno++
@@ -176,6 +178,8 @@ func (s *Server) Session(strm signaling.SRPCSignaling_SessionStream) error {
 			if _, currRemotePeer := sess.getCurrPeers(localIsPeerA); currRemotePeer != nil {
 				// Clear the pending packet to recv if any.
 				currRemotePeer.recv, currRemotePeer.recvSent = nil, nil
+				// acks and clears from us belong to the old epoch.
+				currRemotePeer.recvClear, currRemotePeer.outAcked = nil, nil
 			}
 			sess.seqno++
 			sess.broadcast()
